@@ -12,7 +12,8 @@ RULE = ("a merchant configuration with known discrete logs; agreed (channel id, 
         "relation fails, (d) post-challenge choice - draft, read the verifier's challenge through the hook, solve the "
         "revealed commitment scalars (k := r - c*v) or the scalar commitments T, resubmit, (e) compensating errors: "
         "responses for the agreed values, with errors in the two commitments (or scalar commitments) that cancel in the sum / "
-        "difference of the two Schnorr relations. Non-trivial = every forged "
+        "difference of the two Schnorr relations; proofs of TRUE statements whose response scalars vanish (which must be accepted); a "
+        "merchant from merchant::Config::new. Non-trivial = every forged "
         "proof and every honest run; distinct = distinct input digest.")
 TRUSTED = ["theorems C01_* over an arbitrary field and an arbitrary hash; correspondence ops: req_new, m_init, m_activate, "
            "req_complete, inactive_activate, sig_verify; the verifier's challenge is read through the verif-hooks recorder"]
